@@ -352,6 +352,11 @@ func (enc Encryptor) encryptZeroPkNoP(pk *PublicKey, ct Element[ring.Poly]) (err
 		enc.xeSampler.AtLevel(levelQ).ReadAndAdd(c1)
 	}
 
+	if ct.IsMontgomery {
+		ringQ.MForm(c0, c0)
+		ringQ.MForm(c1, c1)
+	}
+
 	return
 }
 
@@ -412,19 +417,23 @@ func (enc Encryptor) encryptZeroSkFromC1(sk *SecretKey, ct Element[ring.Poly], c
 	ringQ.MulCoeffsMontgomery(c1, sk.Value.Q, c0)
 	ringQ.Neg(c0, c0)
 
+	// c1 is uniform in either representation, the error must be in the one of the ciphertext.
+	e := enc.buffQP[0].Q
+	enc.xeSampler.AtLevel(levelQ).Read(e)
+	if ct.IsMontgomery {
+		ringQ.MForm(e, e)
+	}
+
 	if ct.IsNTT {
-		e := enc.buffQP[0].Q
-		enc.xeSampler.AtLevel(levelQ).Read(e)
 		ringQ.NTT(e, e)
-		ringQ.Add(c0, e, c0)
 	} else {
 		ringQ.INTT(c0, c0)
 		if ct.Degree() >= 1 {
 			ringQ.INTT(c1, c1)
 		}
-
-		enc.xeSampler.AtLevel(levelQ).ReadAndAdd(c0)
 	}
+
+	ringQ.Add(c0, e, c0)
 
 	return
 }
